@@ -13,7 +13,7 @@ namespace Y0
 namespace MG
 variable {α : Type}
 
-theorem mem_pairs_sub {l : List α} {a b : α} : (a, b) ∈ pairs l → a ∈ l ∧ b ∈ l := by
+theorem lvPairs_sub {l : List α} {a b : α} : (a, b) ∈ pairs l → a ∈ l ∧ b ∈ l := by
   induction l with
   | nil => simp [pairs]
   | cons x xs ih =>
@@ -22,7 +22,7 @@ theorem mem_pairs_sub {l : List α} {a b : α} : (a, b) ∈ pairs l → a ∈ l 
     · exact ⟨Or.inl rfl, Or.inr hy⟩
     · exact ⟨Or.inr (ih h).1, Or.inr (ih h).2⟩
 
-theorem mem_pairs_ne {l : List α} (hl : l.Nodup) {a b : α} : (a, b) ∈ pairs l → a ≠ b := by
+theorem lvPairs_ne {l : List α} (hl : l.Nodup) {a b : α} : (a, b) ∈ pairs l → a ≠ b := by
   induction l with
   | nil => simp [pairs]
   | cons x xs ih =>
@@ -32,7 +32,7 @@ theorem mem_pairs_ne {l : List α} (hl : l.Nodup) {a b : α} : (a, b) ∈ pairs 
     · rintro rfl; exact hl.1 hy
     · exact ih hl.2 h
 
-theorem mem_pairs_of_mem {l : List α} {a b : α} (ha : a ∈ l) (hb : b ∈ l) (hab : a ≠ b) :
+theorem lvPairs_of_mem {l : List α} {a b : α} (ha : a ∈ l) (hb : b ∈ l) (hab : a ≠ b) :
     (a, b) ∈ pairs l ∨ (b, a) ∈ pairs l := by
   induction l with
   | nil => simp at ha
@@ -150,12 +150,12 @@ theorem readOff_edges (D : LV) (hnd : D.edges.Nodup) (hm : ∀ e ∈ D.edges, e.
     · rintro ⟨n, _, hnl, h⟩
       have hndc := nodup_children D hnd n
       rcases h with h | h
-      · exact ⟨mem_pairs_ne hndc h, n, hnl, (mem_children D _ _).1 (mem_pairs_sub h).1,
-          (mem_children D _ _).1 (mem_pairs_sub h).2⟩
-      · exact ⟨(mem_pairs_ne hndc h).symm, n, hnl, (mem_children D _ _).1 (mem_pairs_sub h).2,
-          (mem_children D _ _).1 (mem_pairs_sub h).1⟩
+      · exact ⟨lvPairs_ne hndc h, n, hnl, (mem_children D _ _).1 (lvPairs_sub h).1,
+          (mem_children D _ _).1 (lvPairs_sub h).2⟩
+      · exact ⟨(lvPairs_ne hndc h).symm, n, hnl, (mem_children D _ _).1 (lvPairs_sub h).2,
+          (mem_children D _ _).1 (lvPairs_sub h).1⟩
     · rintro ⟨hne, l, hl, ha, hb⟩
-      exact ⟨l, hm _ ha, hl, mem_pairs_of_mem ((mem_children D _ _).2 ha) ((mem_children D _ _).2 hb) hne⟩
+      exact ⟨l, hm _ ha, hl, lvPairs_of_mem ((mem_children D _ _).2 ha) ((mem_children D _ _).2 hb) hne⟩
 
 /-- on a flat LV-DAG the graph read off is the latent projection -/
 theorem readOff_isProjection (D : LV) (hw : D.WF) (hf : D.Flat) : IsProjection D D.readOff := by
@@ -172,8 +172,8 @@ theorem readOff_isProjection (D : LV) (hw : D.WF) (hf : D.Flat) : IsProjection D
       · exact h
       · exact ⟨hn, hnl⟩
       · exact hobs _ _ ((mem_children D _ _).1 hc)
-      · exact hobs _ _ ((mem_children D _ _).1 (mem_pairs_sub he).1)
-      · exact hobs _ _ ((mem_children D _ _).1 (mem_pairs_sub he).2)
+      · exact hobs _ _ ((mem_children D _ _).1 (lvPairs_sub he).1)
+      · exact hobs _ _ ((mem_children D _ _).1 (lvPairs_sub he).2)
     · exact Or.inl
   · unfold readOff
     rw [f2, DiEdge, di_foldl_addNode]
@@ -191,8 +191,8 @@ theorem readOff_isProjection (D : LV) (hw : D.WF) (hf : D.Flat) : IsProjection D
     · rintro ⟨n, _, hnl, h⟩
       have hnd := nodup_children D hw.edges_nodup n
       have key : ∀ x y, (x, y) ∈ pairs (D.children n) → x ≠ y ∧ D.Edge n x ∧ D.Edge n y := fun x y hxy =>
-        ⟨mem_pairs_ne hnd hxy, (mem_children D _ _).1 (mem_pairs_sub hxy).1,
-          (mem_children D _ _).1 (mem_pairs_sub hxy).2⟩
+        ⟨lvPairs_ne hnd hxy, (mem_children D _ _).1 (lvPairs_sub hxy).1,
+          (mem_children D _ _).1 (lvPairs_sub hxy).2⟩
       rcases h with h | h
       · obtain ⟨hne, ha, hb⟩ := key _ _ h
         exact ⟨hne, hobs _ _ ha, hobs _ _ hb, n, hnl, ha, hb⟩
@@ -200,7 +200,7 @@ theorem readOff_isProjection (D : LV) (hw : D.WF) (hf : D.Flat) : IsProjection D
         exact ⟨hne.symm, hobs _ _ ha, hobs _ _ hb, n, hnl, ha, hb⟩
     · rintro ⟨hne, _, _, l, hl, ha, hb⟩
       exact ⟨l, (hw.edge_mem _ ha).1, hl,
-        mem_pairs_of_mem ((mem_children D _ _).2 ha) ((mem_children D _ _).2 hb) hne⟩
+        lvPairs_of_mem ((mem_children D _ _).2 ha) ((mem_children D _ _).2 hb) hne⟩
 
 /-- two projections of the same LV-DAG are equal as mixed graphs (`NxMixedGraph.__eq__`) -/
 theorem IsProjection.equiv {D : LV} {G H : MG Nat} (hG : IsProjection D G) (hH : IsProjection D H) :
